@@ -286,13 +286,33 @@ def join_plan(head, lps, ops):
     other = [h for h in head if not h.startswith("lp ")]
     return "\n".join(other + lp_decl + lps + [l for u in ops for l in u]) + "\n"
 
+def reproduces(flavour, text, prop, cls, profile, tag="gate"):
+    """does this plan show exactly this (property, class) in a fresh process?"""
+    if cls.startswith("nondeterministic:"):
+        ok, detail = twin_compare(text)
+        return ok is False and twin_class(detail) == cls
+    if cls.startswith("valgrind:"):
+        txt = valgrind_run(text)
+        return bool(txt.strip()) and cls.split(":")[1].replace("_", " ") in txt
+    res, crash, _ = replay_once(flavour, text, tag=tag)
+    if crash is not None and crash["kind"] == "crash" and not cls.startswith(("crash", "hang")):
+        return False
+    if res is None and crash is None:
+        return False
+    return any(p == prop and c == cls for (p, c, _) in violations_of(res, crash, flavour, text, profile))
+
 def shrink(flavour, text, prop, cls, profile, budget=250, log=None):
     """class preserving ddmin over op units, fault lines, lp lines, then number simplification"""
     runs = [0]
+    special = cls.startswith(("nondeterministic:", "valgrind:"))
+    if special:
+        budget = min(budget, 60)
     def still(t):
         if runs[0] >= budget:
             return False
         runs[0] += 1
+        if special:
+            return reproduces(flavour, t, prop, cls, profile, tag="shrink")
         res, crash, _ = replay_once(flavour, t, tag="shrink")
         if crash is not None and crash["kind"] == "crash" and not cls.startswith(("crash", "hang")):
             return False
@@ -396,6 +416,69 @@ def avoid_tokens(findings, prop):
             toks.add(t)
     return toks
 
+
+# ---------------------------------------------------------------------------------------------- C17 twin runs
+TWIN_VARIANTS = [("asan", "71"), ("plain", "203"), ("asan0", "0")]
+
+def with_knob(plan_text, knob, value):
+    lines = [l for l in plan_text.split("\n") if not l.startswith("knob %s " % knob)]
+    out = []
+    done = False
+    for l in lines:
+        out.append(l)
+        if l.startswith("profile ") and not done:
+            out.append("knob %s %s" % (knob, value)); done = True
+    return "\n".join(out)
+
+def twin_compare(plan_text):
+    """run one plan in three fresh processes (different flavour, fill pattern, environment size); returns (ok, detail)"""
+    outs = []
+    for k, (fl, fill) in enumerate(TWIN_VARIANTS):
+        text = with_knob(plan_text, "mem.fill", fill)
+        if k == 1:
+            os.environ["QSIM_TWIN_PADDING"] = "x" * 3000     # moves the stack and the environment block
+        try:
+            res, crash, tl = replay_once(fl, text, trace=True, tag="twin%d" % k)
+        finally:
+            os.environ.pop("QSIM_TWIN_PADDING", None)
+        if crash is not None or res is None:
+            return None, "variant %s did not finish (%s)" % (fl, crash["kind"] if crash else "?")
+        tr = [l[2:] for l in tl if l.startswith("T ")]
+        outs.append((fl, res["transcript_hash"], tr))
+    base = outs[0]
+    for (fl, h, tr) in outs[1:]:
+        if h != base[1]:
+            for i in range(max(len(tr), len(base[2]))):
+                a = base[2][i] if i < len(base[2]) else "<end>"
+                b = tr[i] if i < len(tr) else "<end>"
+                if a != b:
+                    return False, "%s: %s | %s: %s" % (base[0], a[:160], fl, b[:160])
+            return False, "transcript hashes differ between %s and %s" % (base[0], fl)
+    return True, ""
+
+def twin_class(detail):
+    m = re.search(r": +(\w+)", detail)
+    return "nondeterministic:" + (m.group(1) if m else "transcript")
+
+def valgrind_run(plan_text):
+    """plain binary under valgrind memcheck; returns error text or ''"""
+    os.makedirs(LOGDIR, exist_ok=True)
+    path = os.path.join(LOGDIR, "vg-%d-%d.plan" % (os.getpid(), threading.get_ident()))
+    open(path, "w").write(plan_text)
+    log = path + ".log"
+    try:
+        subprocess.run(["valgrind", "-q", "--error-exitcode=9", "--log-file=" + log, qsim("plain"), "--replay", path],
+                       stdout=subprocess.DEVNULL, stderr=subprocess.DEVNULL, cwd=BUILD, timeout=900)
+        txt = open(log, errors="replace").read() if os.path.exists(log) else ""
+        return txt
+    except subprocess.TimeoutExpired:
+        return ""
+    finally:
+        for f in (path, log):
+            try:
+                os.unlink(f)
+            except OSError:
+                pass
 
 # ---------------------------------------------------------------------------------------------- check
 def check(prop, tier):
@@ -506,7 +589,7 @@ def check(prop, tier):
                                 sigs.add(s)
                             if len(samples) < 4:
                                 samples.append({"profile": a["profile"], "seed": seed, "faults": a["faults"], "flavour": fl})
-                        if stats["runs"] % 50 == 0 and not res.get("violations"):
+                        if stats["runs"] % 12 == 0 and not res.get("violations"):
                             recheck_q.put((fl, a["profile"], seed, opts, res["transcript_hash"]))
                     for (p, c, d) in viols:
                         if p == prop or p == "HARNESS":
@@ -547,6 +630,53 @@ def check(prop, tier):
         for b in batch: b.start()
         for b in batch: b.join()
 
+    # C17: bit-identical results in three fresh processes of different build flavour, fill pattern and environment
+    twin_stats = {"plans": 0, "identical": 0, "inconclusive": 0, "valgrind_plans": 0}
+    if spec.get("twin"):
+        n_twin = int(os.environ.get("VERIF_TWINS", "32" if tier == "quick" else "300"))
+        twin_jobs = []
+        k = 0
+        while len(twin_jobs) < n_twin:
+            a = arms[k % len(arms)]
+            seed = run_seed(base_seed, prop + ":twin", k)
+            opts = dict(a.get("opts", {})); opts["faults"] = str(a["faults"])
+            if avoid:
+                opts["avoid"] = ",".join(sorted(avoid))
+            twin_jobs.append((a, seed, opts)); k += 1
+        def do_twin(job):
+            a, seed, opts = job
+            text = emit_plan("asan", a["profile"], seed, opts)
+            ok, detail = twin_compare(text)
+            with lock:
+                twin_stats["plans"] += 1
+                if ok is None:
+                    twin_stats["inconclusive"] += 1
+                elif ok:
+                    twin_stats["identical"] += 1
+                else:
+                    found.setdefault(("C17", twin_class(detail)), {"detail": detail, "flavour": "asan", "profile": a["profile"], "seed": seed, "opts": opts, "plan": text})
+        for i in range(0, len(twin_jobs), JOBS):
+            batch = [threading.Thread(target=do_twin, args=(j,)) for j in twin_jobs[i:i + JOBS]]
+            for b in batch: b.start()
+            for b in batch: b.join()
+        if tier == "thorough" and shutil.which("valgrind"):
+            vg_jobs = twin_jobs[: int(os.environ.get("VERIF_VALGRIND", "48"))]
+            def do_vg(job):
+                a, seed, opts = job
+                text = emit_plan("asan", a["profile"], seed, opts)
+                txt = valgrind_run(text)
+                with lock:
+                    twin_stats["valgrind_plans"] += 1
+                    if txt.strip():
+                        m = re.search(r"== (Invalid \w+|Conditional jump|Use of uninitialised|Syscall param[^\n]{0,30}|Mismatched free|Invalid free)", txt)
+                        fr = re.findall(r"(?:at|by) 0x[0-9A-F]+: (\w+) \((\w+\.c)", txt)
+                        libfr = [f for (f, src) in fr if not f.startswith(("sim_", "Exec", "main"))][:2]
+                        found.setdefault(("C17", "valgrind:%s:%s" % ((m.group(1) if m else "error").replace(" ", "_"), "/".join(libfr))), {"detail": txt[:2500], "flavour": "plain", "profile": a["profile"], "seed": seed, "opts": opts, "plan": text})
+            for i in range(0, len(vg_jobs), JOBS):
+                batch = [threading.Thread(target=do_vg, args=(j,)) for j in vg_jobs[i:i + JOBS]]
+                for b in batch: b.start()
+                for b in batch: b.join()
+
     # judge what was found
     exit_code = 0
     lines = []
@@ -566,9 +696,7 @@ def check(prop, tier):
         text = info["plan"]
         ok = 0
         for _ in range(2):
-            res, crash, _ = replay_once(info["flavour"], text, tag="gate")
-            vs = violations_of(res, crash, info["flavour"], text, info["profile"])
-            if any(pp == p and cc == c for (pp, cc, _) in vs):
+            if reproduces(info["flavour"], text, p, c, info["profile"]):
                 ok += 1
         if ok < 2:
             lines.append("HARNESS-ERROR: violation %s %s from seed %d did not reproduce in a fresh process (%d/2)" % (p, c, info["seed"], ok))
@@ -579,11 +707,9 @@ def check(prop, tier):
         os.makedirs(replay_dir, exist_ok=True)
         name = re.sub(r"[^A-Za-z0-9_.-]+", "_", c)[:80] + "-" + hashlib.sha256(small.encode()).hexdigest()[:8] + ".plan"
         path = os.path.join(replay_dir, name)
-        res, crash, tl = replay_once(info["flavour"], small, trace=True, tag="final")
-        vs = violations_of(res, crash, info["flavour"], small, info["profile"])
-        if not any(pp == p and cc == c for (pp, cc, _) in vs):
+        if not reproduces(info["flavour"], small, p, c, info["profile"], tag="final"):
             small = text   # keep the unshrunk plan rather than a wrong one
-            res, crash, tl = replay_once(info["flavour"], small, trace=True, tag="final")
+        res, crash, tl = replay_once(info["flavour"], small, trace=True, tag="final")
         with open(path, "w") as fh:
             fh.write(small)
             fh.write("expect property=%s class=%s flavour=%s profile=%s seed=%d\n" % (p, c, info["flavour"], info["profile"], info["seed"]))
@@ -623,6 +749,7 @@ def check(prop, tier):
             "determinism_rechecks": stats["rechecks"], "determinism_mismatches": stats["recheck_mismatch"],
             "violations_of_other_properties_seen": stats["foreign"],
             "known_findings_matched": sorted(known_hit.keys()),
+            "twin_runs": twin_stats,
             "avoided_shapes": sorted(avoid),
             "real_components": ["every .c under /repo/qsopt_ex (dbl/mpq/mpf instantiations rebuilt from the working tree)", "esolver/esolver.c", "GMP", "zlib", "libbz2", "glibc stdio above fopencookie"],
             "simulated_components": ["clock (ILLutil_zeit, getrusage, time)", "bytes behind fopen/gzopen/BZ2_bzopen (SimDisk)", "malloc fill patterns", "answers of the float sub-solves only where a flt.* fault fired", "setrlimit/signal/exit in esolver"],
@@ -658,7 +785,10 @@ def replay(path):
     vs = violations_of(res, crash, flavour, text, profile)
     for (p, c, d) in vs:
         print("observed: %s %s :: %s" % (p, c, d[:300].replace("\n", " | ")))
-    if any(p == prop and c == cls for (p, c, _) in vs):
+    special = cls.startswith(("nondeterministic:", "valgrind:"))
+    if special:
+        build(["asan", "asan0", "plain"])
+    if (special and reproduces(flavour, text, prop, cls, profile, tag="userreplay")) or any(p == prop and c == cls for (p, c, _) in vs):
         print("VIOLATION property=%s replay=%s" % (prop, path)); return 1
     print("recorded violation did not reproduce"); return 0
 
